@@ -1,4 +1,5 @@
 """Flow-control and pacing rules (C09; R-CTS-BORDER shared with C01/C02)."""
+import ast
 from sa.sym import (SELF, is_const, cval, pretty, walk, contains, root_field, mk_cmp, mk_not, mk_bool, mk_bin)
 from sa.model import AnalysisError
 from sa import guards as G
@@ -531,7 +532,9 @@ def window_affine(ctx, L, rule="R-WINDOW-AFFINE"):
                 ok = False
                 break
             # index of the packet this test belongs to = index of the loop iteration it is in
-            pk = sum(1 for rec in r.recs[:j] if rec.ev.kind == "cond" and rec.ev.extra == "loop" and rec.pol) - 1
+            tnode = r.recs[j].ev.node
+            pk = sum(1 for rec in r.recs[:j] if (rec.ev.kind == "cond" and rec.ev.extra == "loop" and rec.pol) or
+                     (rec.ev.kind == "for" and rec.ev.pol == "iter" and any(x is tnode for x in ast.walk(rec.ev.node)))) - 1
             if int(dd[1]) != pk:
                 ctx.violated(rule, L.job, inst, "window test uses index %+d relative to the packet being sent (expected the pre-increment index)" % (int(dd[1]) - pk),
                              r.recs[j].ev.node)
